@@ -39,6 +39,23 @@ Section G.
       (msum k d (length X) (fun i =>
          msum k d (length X) (fun j => mscale (St L X y i j) (outer (mvmul L (pt X i)) (pt X j))))).
 
+  (* MLKR (mlkr.py, _loss): softmax as above, yhat = softmax . y, cost = sum (yhat - y)^2,
+     W_ij = softmax_ij (yhat_i - y_i)(y_j - yhat_i), W_sym = W + W^T with diagonal -colsum(W), grad = 4 (X A^T)^T W_sym X *)
+  Definition yhat (L X : mat) (yv : vec) (i : nat) : t :=
+    isum (length X) (fun j => omul O (pp L X i j) (nth j yv (o0 O))).
+  Definition mlkr_loss (L X : mat) (yv : vec) : t :=
+    isum (length X) (fun i => let r := osub O (yhat L X yv i) (nth i yv (o0 O)) in omul O r r).
+  Definition Wm (L X : mat) (yv : vec) (i j : nat) : t :=
+    omul O (omul O (pp L X i j) (osub O (yhat L X yv i) (nth i yv (o0 O))))
+           (osub O (nth j yv (o0 O)) (yhat L X yv i)).
+  Definition Sm (L X : mat) (yv : vec) (i j : nat) : t :=
+    if Nat.eqb i j then oopp O (isum (length X) (fun k => Wm L X yv k j))
+    else oadd O (Wm L X yv i j) (Wm L X yv j i).
+  Definition mlkr_grad (k d : nat) (L X : mat) (yv : vec) : mat :=
+    mscale (oofZ O 4)
+      (msum k d (length X) (fun i =>
+         msum k d (length X) (fun j => mscale (Sm L X yv i j) (outer (mvmul L (pt X i)) (pt X j))))).
+
   (* Frobenius inner product of two matrices given by rows *)
   Fixpoint frob (A B : mat) : t :=
     match A, B with r :: A', s :: B' => oadd O (vdot r s) (frob A' B') | _, _ => o0 O end.
